@@ -27,7 +27,7 @@ EXTRA_ASSUMPTIONS = ['A-NUM: a consistent one-step method for an ODE with locall
 NOT_DECIDED = ['convergence to the exact ODE solution as the step is refined (A-NUM)',
                'error at the default step <= small multiple of the step-halving change: bounded stand-in only',
                'vacuum closed-form parabola: bounded stand-in only (the vacuum invariant with ghost sum dt^2 was not built)']
-EXTRA = ['bounded_step_halving', 'bounded_vacuum_parabola', 'rt_integrate']
+EXTRA = ['bounded_step_halving', 'bounded_vacuum_parabola', 'rt_integrate', 'lemma_vacuum_bound']
 
 
 def bounded_step_halving(tier, seed):
@@ -91,3 +91,30 @@ def bounded_vacuum_parabola(tier, seed):
     return result('bounded:vacuum', [mk('vacuum-trajectory-is-the-closed-form-parabola', bad is None,
                   'vacuum rows vs closed-form parabola under standard gravity (within 1/2 g t dt_max)', cases, t0, bad)],
                   t0, props=('C01',))
+
+
+
+def lemma_vacuum_bound(tier, seed):
+    """the arithmetic step from the vacuum step clause of _integrate (contracts/integrate.py, tag 'vacuum':
+    2 (y - parabola(t)) = g S2 with 0 <= S2 <= h t) to the distance from the closed-form parabola:
+    for all g < 0, h > 0, t >= 0, S2, d:  2 d = g S2 and 0 <= S2 <= h t  imply  |d| <= |g| h t / 2.
+    Proved once by z3 (nonlinear real arithmetic, no uninterpreted symbols)."""
+    import z3
+    from pyvc.scan import result, obl
+    t0 = time.time()
+    g, h, t, S2, d = z3.Reals('g h t S2 d')
+    s = z3.Solver()
+    s.set('timeout', 60000)
+    absd = z3.If(d >= 0, d, -d)
+    s.add(g < 0, h > 0, t >= 0, 2 * d == g * S2, 0 <= S2, S2 <= h * t, z3.Not(absd <= (-g) * h * t / 2))
+    r = s.check()
+    # canary: the bound with a quarter instead of a half must be refutable
+    c = z3.Solver()
+    c.set('timeout', 60000)
+    c.add(g < 0, h > 0, t >= 0, 2 * d == g * S2, 0 <= S2, S2 <= h * t, z3.Not(absd <= (-g) * h * t / 4))
+    rc = c.check()
+    o = obl('lemma::vacuum-state-within-half-g-times-step-times-time-of-the-closed-form-parabola', r == z3.unsat and rc == z3.sat,
+            f'2d = g S2, 0 <= S2 <= h t, g < 0  =>  |d| <= |g| h t / 2 ({r}); canary with 1/4 refuted ({rc})', kind='lemma')
+    o['backend'] = 'z3 (QF_NRA)'
+    o['time'] = round(time.time() - t0, 3)
+    return result('lemma:vacuum-bound', [o], t0, props=('C01',))
